@@ -538,9 +538,89 @@ Proof.
   - intros j Hj. cbn in Hj. unfold get_cont. cbn. destruct (Hall j Hj) as [Hx Hnd]. rewrite Hx. exact Hnd.
 Qed.
 
+(* ------------------------------------------------------------------ Remove: list facts *)
+
+Inductive subl {A} : list A -> list A -> Prop :=
+| subl_nil : subl [] []
+| subl_skip x l m : subl l m -> subl l (x :: m)
+| subl_keep x l m : subl l m -> subl (x :: l) (x :: m).
+
+Lemma subl_refl {A} (l : list A) : subl l l.
+Proof. induction l as [|x l IH]; constructor; exact IH. Qed.
+
+Lemma subl_app {A} (a a' b b' : list A) : subl a a' -> subl b b' -> subl (a ++ b) (a' ++ b').
+Proof. intros Ha Hb. induction Ha as [|x l m _ IH|x l m _ IH]; cbn; [exact Hb | constructor; exact IH | constructor; exact IH]. Qed.
+
+Lemma subl_In {A} (l m : list A) x : subl l m -> In x l -> In x m.
+Proof.
+  intros H. induction H as [|y l m _ IH|y l m _ IH]; cbn; [tauto | intros Hx; right; auto |].
+  intros [->|Hx]; [left; reflexivity | right; auto].
+Qed.
+
+Lemma subl_NoDup {A} (l m : list A) : subl l m -> NoDup m -> NoDup l.
+Proof.
+  intros H. induction H as [|y l m Hs IH|y l m Hs IH]; intros Hn; [constructor | |]; inversion Hn; subst.
+  - auto.
+  - constructor; [|auto]. intros Hx. apply (subl_In _ _ _ Hs) in Hx. contradiction.
+Qed.
+
+Lemma subl_map {A B} (f : A -> B) (l m : list A) : subl l m -> subl (map f l) (map f m).
+Proof. intros H. induction H as [|y l m _ IH|y l m _ IH]; cbn; constructor; exact IH. Qed.
+
+Lemma remove_first_subl nm l : subl (remove_first nm l) l.
+Proof.
+  induction l as [|p r IH]; cbn [remove_first]; [constructor|].
+  destruct (N.eqb (p_name p) nm); [constructor; apply subl_refl | constructor; exact IH].
+Qed.
+
+Lemma has_name_In nm l : has_name nm l = true <-> In nm (map p_name l).
+Proof.
+  unfold has_name. rewrite existsb_exists. split.
+  - intros (p & Hp & E). apply N.eqb_eq in E. subst nm. apply in_map. exact Hp.
+  - rewrite in_map_iff. intros (p & E & Hp). exists p. split; [exact Hp | apply N.eqb_eq; exact E].
+Qed.
+
+(* in a list with distinct names, cutting the first plugin of a name leaves none of that name *)
+Lemma remove_first_gone nm l : NoDup (map p_name l) -> ~ In nm (map p_name (remove_first nm l)).
+Proof.
+  induction l as [|p r IH]; cbn [remove_first map]; [tauto|]. intros Hn. inversion Hn; subst.
+  destruct (N.eqb (p_name p) nm) eqn:E.
+  - apply N.eqb_eq in E. subst nm. assumption.
+  - cbn [map]. intros [Hx|Hx]; [apply N.eqb_neq in E; contradiction | exact (IH H2 Hx)].
+Qed.
+
+Lemma mid_upd0_subl (cs : list container) nm f k j :
+  subl (c_middle (nth j (upd 0 (mkCont (remove_first nm (c_middle (nth 0 cs dflt_cont))) f k) cs) dflt_cont))
+       (c_middle (nth j cs dflt_cont)).
+Proof.
+  destruct j as [|j].
+  - destruct cs as [|c cs]; cbn; [constructor | apply remove_first_subl].
+  - rewrite nth_upd_neq by lia. apply subl_refl.
+Qed.
+
+Lemma upd_nth_same {A} (l : list A) d : 0 < length l -> upd 0 (nth 0 l d) l = l.
+Proof. destruct l; cbn; [lia | reflexivity]. Qed.
+
+(* the global container's own middle list is empty: cutting a name out of it changes nothing *)
+Lemma remove_root_same st sp nm :
+  inv st sp ->
+  upd 0 (mkCont (remove_first nm (c_middle (get_cont st 0))) (c_flat (get_cont st 0)) (c_kids (get_cont st 0)))
+      (s_conts st) = s_conts st.
+Proof.
+  intros I. pose proof (inv_root _ _ I) as Hr. pose proof (inv_len _ _ I) as Hl. unfold get_cont in *.
+  destruct (nth 0 (s_conts st) dflt_cont) as [m f k] eqn:E0. cbn [c_middle c_flat c_kids] in *. subst m.
+  cbn [remove_first]. rewrite <- E0. apply upd_nth_same. exact Hl.
+Qed.
+
+Lemma global_flat_inv st sp : inv st sp -> c_flat (get_cont st 0) = sp_left sp ++ sp_right sp.
+Proof.
+  intros I. rewrite (inv_fresh _ _ I 0 (inv_len _ _ I)), (inv_root _ _ I), (inv_left _ _ I), (inv_right _ _ I).
+  reflexivity.
+Qed.
+
 Lemma step_inv st sp o st' : inv st sp -> step st o = Some st' -> inv st' (spec_step sp o).
 Proof.
-  intros I S. destruct o as [parent ps | k r hid hs ps | k hid hs ps | ps | ps]; cbn [step] in S.
+  intros I S. destruct o as [parent ps | k r hid hs ps | k hid hs ps | ps | ps | nm]; cbn [step] in S.
   - (* SubRoute *)
     destruct (nth_error (s_routers st) parent) as [pc|] eqn:Er; [|discriminate].
     destruct (clone st pc ps) as [[st1 n]|] eqn:C; [|discriminate]. inversion S; subst st'; clear S.
@@ -599,6 +679,15 @@ Proof.
       try reflexivity.
     + rewrite (inv_left _ _ I). reflexivity.
     + rewrite (inv_right _ _ I). reflexivity.
+  - (* Remove *)
+    unfold remove_op in S. cbv zeta in S. rewrite (remove_root_same _ _ nm I) in S.
+    rewrite (global_flat_inv _ _ I) in S. cbn [spec_step].
+    destruct (has_name nm (sp_left sp ++ sp_right sp)) eqn:Hn.
+    + eapply inv_after_append; [exact I | exact S | | | | | |]; cbn [sp_left sp_right sp_chains sp_handlers sp_unk_call sp_unk_push];
+        try reflexivity.
+      * rewrite (inv_left _ _ I). reflexivity.
+      * rewrite (inv_right _ _ I). reflexivity.
+    + inversion S; subst st'. exact I.
 Qed.
 
 Lemma run_from_inv ops : forall st sp st',
@@ -1412,7 +1501,7 @@ Lemma step_total st used nr hs o r :
                       refs_ok nr' hs' r = true.
 Proof.
   intros O Hr Hn Hf.
-  destruct o as [parent ps | k rt hid hs0 ps | k hid hs0 ps | ps | ps]; cbn [refs_ok op_plugins step] in *.
+  destruct o as [parent ps | k rt hid hs0 ps | k hid hs0 ps | ps | ps | nm]; cbn [refs_ok op_plugins step] in *.
   - (* SubRoute *)
     apply andb_true_iff in Hr as [Hp Hr]. apply Nat.ltb_lt in Hp. rewrite <- (ok_nr _ _ _ _ O) in Hp.
     destruct (nth_error (s_routers st) parent) as [pc|] eqn:En; [|apply nth_error_None in En; lia].
@@ -1487,6 +1576,31 @@ Proof.
     + intros j n. unfold chain_of. rewrite EL, ER, Hmid. unfold st0, get_cont. cbn.
       unfold names. rewrite !map_app, !in_app_iff. intros [H|[H|[H|H]]]; [left|left|left|right; exact H];
         apply (ok_used _ _ _ _ O j); unfold names, chain_of, get_cont; rewrite !map_app, !in_app_iff; auto.
+  - (* Remove *)
+    unfold remove_op. cbv zeta.
+    destruct (has_name nm (c_flat (get_cont st 0))) eqn:Hh.
+    2:{ exists st, nr, hs. split; [reflexivity|]. split; [|exact Hr]. cbn [names map]. rewrite app_nil_r. exact O. }
+    set (c0' := mkCont (remove_first nm (c_middle (get_cont st 0))) (c_flat (get_cont st 0)) (c_kids (get_cont st 0))).
+    set (st0 := mkSt (remove_first nm (s_left st)) (remove_first nm (s_right st)) (upd 0 c0' (s_conts st))
+                     (s_routers st) (s_handlers st) (s_unk_call st) (s_unk_push st)).
+    assert (Hsub : forall j, subl (names (chain_of st0 j)) (names (chain_of st j))).
+    { intros j. unfold names, chain_of, st0. cbn [s_left s_right]. apply subl_map.
+      apply subl_app; [apply remove_first_subl|]. apply subl_app; [|apply remove_first_subl].
+      unfold get_cont, c0'. cbn [s_conts]. apply mid_upd0_subl. }
+    assert (H0 : forall j, NoDup (names (chain_of st0 j))).
+    { intros j. apply (subl_NoDup _ _ (Hsub j)). apply (ok_nd _ _ _ _ O j). }
+    unfold refresh_tree. destruct (refresh_all_total (tree_order (length (s_conts st0)) (s_conts st0) 0) st0 H0) as [st' R].
+    fold c0'. fold st0. rewrite R. destruct (refresh_all_mid _ _ _ R) as (EL & ER & ERo & EH & Hlen & Hmid).
+    assert (Hl0 : length (s_conts st0) = length (s_conts st)) by (unfold st0; cbn [s_conts]; apply upd_length).
+    eexists _, nr, hs. split; [reflexivity|]. split; [|exact Hr].
+    constructor.
+    + rewrite ERo. apply (ok_nr _ _ _ _ O).
+    + rewrite ERo, Hlen, Hl0. apply (ok_rr _ _ _ _ O).
+    + rewrite EH. apply (ok_hs _ _ _ _ O).
+    + rewrite Hlen, Hl0. apply (ok_len _ _ _ _ O).
+    + intros j. unfold chain_of. rewrite EL, ER, Hmid. apply (H0 j).
+    + intros j n. unfold chain_of. rewrite EL, ER, Hmid. intros H. apply in_or_app. left.
+      apply (ok_used _ _ _ _ O j). apply (subl_In _ _ _ (Hsub j)). exact H.
 Qed.
 
 Lemma run_from_total ops : forall st used nr hs,
